@@ -721,14 +721,14 @@ def rule_brick(c, prog, R="C17.brick"):
         c.ok(R, "brickcolor:name-first-wins", len(order))
 
 
-SNIFF = re.compile(r"Deserializer::deserialize_any$|Deserializer::deserialize_ignored_any$|private::de::content::Content(Ref)?Deserializer|private::de::content::ContentVisitor|private::de::content::TaggedContentVisitor|private::de::FlatMapDeserializer")
+SNIFF = re.compile(r"SerializeStruct(Variant)?::skip_field$|Deserializer::deserialize_any$|Deserializer::deserialize_ignored_any$|private::de::content::Content(Ref)?Deserializer|private::de::content::ContentVisitor|private::de::content::TaggedContentVisitor|private::de::FlatMapDeserializer")
 
 
 def rule_selfdesc(c, prog, R="C17.selfdesc"):
     """bincode (and any format that is not self-describing) cannot tell a deserializer what comes next: code that asks
     (deserialize_any; the buffered `Content` behind #[serde(untagged)], internally tagged enums and flatten) works for
     JSON and MessagePack and fails for the compact encoding"""
-    c.rule(R, "shape-sniffing deserialisation (Deserializer::deserialize_any, serde's buffered Content used by untagged / internally tagged enums and flatten) is reached only where `deserializer.is_human_readable()` has been answered true — directly, or in every caller of the generated impl that contains it; elsewhere a value that decodes from JSON fails to decode from bincode")
+    c.rule(R, "encodings whose shape depends on the value — a field left out by `skip_serializing_if` (SerializeStruct::skip_field), shape-sniffing deserialisation (Deserializer::deserialize_any, serde's buffered Content used by untagged / internally tagged enums and flatten) — are reached only where `deserializer.is_human_readable()` has been answered true — directly, or in every caller of the generated impl that contains it; elsewhere a value that decodes from JSON fails to decode from bincode")
     from sa import flow
     g = flow.CallGraph(prog)
     callers = {}
@@ -768,6 +768,13 @@ def rule_selfdesc(c, prog, R="C17.selfdesc"):
             # an unguarded site inside a generated / helper Deserialize impl is fine if every caller of that impl is guarded
             cs = [prog.fns[p_] for p_ in callers.get(fn.path, ()) if p_ in prog.fns and prog.fns[p_].crate == "rbx_types" and prog.fns[p_].body is not None and not prog.fns[p_].path.startswith(fn.path)]
             owner = fn.d.get("root") if fn.dk == "Closure" else None
+            # the serde impl of a public type is an entry point of its own: anyone can hand it any serializer, and
+            # containers reach it through generic `serialize_field` calls that are not edges of the call graph
+            mimpl = re.search(r"<impl serde_core::(ser::Serialize|de::Deserialize<'de>) for ([\w:]+)", fn.path)
+            if mimpl:
+                adt_ = prog.adts.get(mimpl.group(2))
+                if adt_ is not None and "Public" in str(adt_.get("vis")):
+                    cs = []
             if not cs or depth <= 0:
                 bad.append((fn, u, trail))
                 continue
@@ -789,7 +796,7 @@ def rule_selfdesc(c, prog, R="C17.selfdesc"):
             if key in seen:
                 continue
             seen.add(key)
-            c.violation(R, key, f"{core.short(fn.path)} asks the deserializer what comes next ({core.short(core.callee_generic(bn) or core.callee(bn) or '')}) without `is_human_readable()` having been answered true on the way{' (reached through ' + ' <- '.join(core.short(t_) for t_ in trail) + ')' if trail else ''}: the value decodes from JSON and MessagePack but bincode answers `deserialize_any is not supported`", core.loc(bn), instance=inst)
+            c.violation(R, key, f"{core.short(fn.path)} makes the encoding's shape depend on the value ({core.short(core.callee_generic(bn) or core.callee(bn) or '')}: a field that is sometimes left out, or a deserializer asked what comes next) without `is_human_readable()` having been answered true on the way{' (reached through ' + ' <- '.join(core.short(t_) for t_ in trail) + ')' if trail else ''}: JSON and MessagePack cope, the positional bincode encoding fails to decode or shifts the fields that follow", core.loc(bn), instance=inst)
         else:
             c.ok(R, inst)
     c.floor(R, n_sites, 1, "shape-sniffing deserialisation sites in rbx_types")
